@@ -83,6 +83,28 @@ def corrupt_prefix_listing(run):
     return None
 
 
+def _validate(ctx, files, what):
+    """ctx.validate, plus one retry of the files whose JVM failed without a verdict (observed when the machine is
+    heavily loaded: 'TLC threw an unexpected exception' before the first state).  A verdict (accepted / rejected) is
+    never retried; a file that fails twice stays a tool error."""
+    n0 = len(ctx.tool_errors)
+    ctx.validate(TRACE, files, what=what)
+    errs = ctx.tool_errors[n0:]
+    if not errs:
+        return
+    again = [f for f in files if any(("trace validation of " + f) in e for e in errs)]
+    if not again:
+        return
+    del ctx.tool_errors[n0:]
+    ctx.tool_errors += [e for e in errs if not any(("trace validation of " + f) in e for f in again)]
+    vlib.log("retrying %d trace files whose validation gave no verdict" % len(again))
+    runs_before = ctx.cov["traces_validated_against_impl"]
+    ctx.validate(TRACE, again, what=what)
+    # the runs of the retried files were already counted by the first pass
+    ctx.cov["traces_validated_against_impl"] = runs_before
+    ctx.cov["retried_files"] = ctx.cov.get("retried_files", 0) + len(again)
+
+
 def _generate(ctx, cfg, tag):
     return ctx.tlc_generate("MC_ByteSetGen", cfg=cfg, tag=tag, timeout=1500, jvm="-Xmx8g",
                             outfile=os.path.join(ctx.work, "%s.%s.ndjson" % (cfg.replace(".cfg", ""), tag.lower())))
@@ -106,12 +128,12 @@ def run(ctx):
         if ntab != 2 ** nk + 1:
             raise vlib.ToolError("MC_ByteSetGen TABLE has %d lines, expected %d" % (ntab, 2 ** nk + 1))
         nbeh_total += nbeh
-        s2s.append(ctx.harness(BIN, "replay", "b2-%d" % gi, extra={"in": beh, "table": tab, "sample": 4000 if ctx.thorough else 500}))
+        s2s.append(ctx.harness(BIN, "replay", "b2-%d" % gi, extra={"in": beh, "table": tab, "gen": gi, "sample": 4000 if ctx.thorough else 500}))
     # --- B1: seeded random histories over a generated universe of ~40 byte-string keys
     s1 = ctx.harness(BIN, "drive", "b1")
     b1files = sorted(glob.glob(os.path.join(s1["_out"], "*.ndjson")))
     b2files = [p for s in s2s for p in sorted(glob.glob(os.path.join(s["_out"], "*.ndjson")))]
-    ctx.validate(TRACE, b1files + b2files, what="trie operation history")
+    _validate(ctx, b1files + b2files, "trie operation history")
     # --- binding self-tests: corrupted answers must be rejected (first file = a Patricia subject, clean)
     ctx.selftest_corrupt(TRACE, b1files[0], corrupt_contains, "one contains() answer of a probe flipped")
     ctx.selftest_corrupt(TRACE, b1files[0], corrupt_keys_listing, "one key dropped from a keys() listing")
@@ -177,27 +199,21 @@ def run(ctx):
 
 
 def replay(ctx, path):
-    """re-execute the subject of a replay file against the current tree and validate again"""
+    """re-execute the calls stored in a replay file (same subject, same universe, same call sequence, full probe
+    after every mutating call) against the current tree and let TLC judge the new trace.  A replay file without
+    stored events falls back to re-driving the subject with the stored seed and tier."""
     rep = json.load(open(path))
     ctx.build(BIN)
     subj = rep.get("subject")
-    reset = rep.get("reset", {})
     ctx.tier = rep.get("tier", ctx.tier)
     ctx.seed = rep.get("seed", ctx.seed)
-    if reset.get("b2"):
-        gens = GEN_THOROUGH if ctx.tier == "thorough" else [GEN_QUICK]
-        files = []
-        s = {}
-        for gi, (cfg, nk, L) in enumerate(gens):
-            beh, _ = _generate(ctx, cfg, "REPLAY")
-            tab, _ = _generate(ctx, "MC_ByteSetTab.cfg" if nk == 7 else "MC_ByteSetTab%d.cfg" % nk, "TABLE")
-            s = ctx.harness(BIN, "replay", "rp-%d" % gi, extra={"in": beh, "table": tab, "sample": 1000000}, subject=subj)
-            files += sorted(glob.glob(os.path.join(s["_out"], "*.ndjson")))
+    if rep.get("events"):
+        s = ctx.harness(BIN, "rerun", "rp", extra={"in": os.path.abspath(path)})
     else:
         s = ctx.harness(BIN, "drive", "rp", subject=subj)
-        files = sorted(glob.glob(os.path.join(s["_out"], "*.ndjson")))
-    ctx.validate(TRACE, files, what="replay of " + os.path.basename(path))
+    files = sorted(glob.glob(os.path.join(s["_out"], "*.ndjson")))
+    _validate(ctx, files, "replay of " + os.path.basename(path))
     ctx.cov["evaluations"] = max(1, s.get("events", 0))
     ctx.cov["distinct_nontrivial"] = max(2, s.get("runs", 0))
-    ctx.cov["rule"] = "replay of one subject"
+    ctx.cov["rule"] = "replay of one stored run of one subject"
     ctx.sample({"replayed": path})
